@@ -452,6 +452,61 @@ func C13(tier string) int {
 		})
 	}
 
+	// ---- size boundaries: element counts around one-byte and two-byte index widths, long strings as values and keys
+	listSizes := []int{1, 2, 255, 256, 257, 300}
+	if thorough {
+		listSizes = append(listSizes, 65536+2)
+	}
+	for _, n := range listSizes {
+		n := n
+		l := make([]interface{}, n)
+		sl := make([]string, n)
+		mp := map[string]interface{}{}
+		for i := range l {
+			l[i] = int64(i)
+			sl[i] = fmt.Sprintf("s%06d", i)
+			if n <= 300 {
+				mp[fmt.Sprintf("k%d", i)] = int64(i)
+			}
+		}
+		rt("value-list-size", fmt.Sprint(n), func(b *boltz.TypedBucket) { b.PutList("l", l, nil) }, func(b *boltz.TypedBucket) string {
+			if g := b.GetList("l"); !eqVal(l, g) {
+				return fmt.Sprintf("PutList of %d distinct integers: read back %d elements, first difference at %d", n, len(g), firstDiff(l, g))
+			}
+			return ""
+		})
+		if n <= 300 {
+			nested := map[string]interface{}{"x": l, "y": mp}
+			rt("value-list-size", fmt.Sprintf("nested %d", n), func(b *boltz.TypedBucket) { b.PutMap("m", nested, nil, true) }, func(b *boltz.TypedBucket) string {
+				if g := b.GetMap("m"); !eqVal(nested, g) {
+					return fmt.Sprintf("PutMap with a %d-element list and a %d-key map inside did not read back equal", n, n)
+				}
+				return ""
+			})
+			rt("string-list-size", fmt.Sprint(n), func(b *boltz.TypedBucket) { b.SetStringList("f", sl, nil) }, func(b *boltz.TypedBucket) string {
+				if g := b.GetStringList("f"); strings.Join(g, ",") != strings.Join(sl, ",") {
+					return fmt.Sprintf("SetStringList of %d strings read back %d elements", n, len(g))
+				}
+				return ""
+			})
+		}
+	}
+	for _, n := range []int{63, 64, 65, 255, 256, 257, 4096, 32768 - 1} {
+		v := strings.Repeat("v", n)
+		rt("string-size", fmt.Sprint(n), func(b *boltz.TypedBucket) { b.SetString("f", v, nil); b.SetStringList("l", []string{v, "a"}, nil); b.PutMap("m", map[string]interface{}{"k": v}, nil, true) }, func(b *boltz.TypedBucket) string {
+			if g := b.GetString("f"); g == nil || *g != v {
+				return fmt.Sprintf("string of %d bytes not read back", n)
+			}
+			if g := b.GetStringList("l"); len(g) != 2 || g[1] != v {
+				return fmt.Sprintf("string list element of %d bytes not read back (%d elements)", n, len(g))
+			}
+			if g := b.GetMap("m"); !eqVal(map[string]interface{}{"k": v}, g) {
+				return fmt.Sprintf("map value of %d bytes not read back", n)
+			}
+			return ""
+		})
+	}
+
 	// ---- container overwrites: a map/list written over an earlier one reads back as the NEW value
 	// (nothing of the old one survives), first write committed before or earlier in the same transaction
 	owMaps := []map[string]interface{}{{}, {"x": "a"}, {"x": int64(7)}, {"x": map[string]interface{}{"k1": "a"}}, {"x": []interface{}{"a"}}, {"x": nil},
@@ -748,4 +803,13 @@ func toIfaces(l []string) []interface{} {
 		out[i] = s
 	}
 	return out
+}
+
+func firstDiff(want, got []interface{}) int {
+	for i := range want {
+		if i >= len(got) || !eqVal(want[i], got[i]) {
+			return i
+		}
+	}
+	return -1
 }
